@@ -312,6 +312,18 @@ def private_name_map(cur_trees, ref_trees):
 def apply_private_map(tree, mapping):
     if not mapping:
         return
+    # module-level private functions are called by plain name (and imported by name)
+    module_level = {n.name for n in tree.body if isinstance(n, (ast.FunctionDef, ast.AsyncFunctionDef))}
+    imported = {a.name for n in ast.walk(tree) if isinstance(n, ast.ImportFrom) for a in n.names}
+    present = {n.id for n in ast.walk(tree) if isinstance(n, ast.Name)}
+    by_name = {k: v for k, v in mapping.items() if (k in module_level or k in imported) and v not in present}
+    for n in ast.walk(tree):
+        if isinstance(n, ast.Name) and n.id in by_name:
+            n.id = by_name[n.id]
+        elif isinstance(n, ast.ImportFrom):
+            for a in n.names:
+                if a.name in by_name and a.asname is None:
+                    a.name = by_name[a.name]
     for n in ast.walk(tree):
         if isinstance(n, ast.Attribute) and n.attr in mapping:
             n.attr = mapping[n.attr]
